@@ -4,6 +4,7 @@ import (
 	"bytes"
 	"fmt"
 	"strconv"
+	"unicode/utf8"
 )
 
 type regExpParser struct {
@@ -330,7 +331,9 @@ func (p *regExpParser) scanEscape(inClass bool) {
 	default:
 		// $ is an identifier character, so we have to have
 		// a special case for it here
-		if p.chr == '$' || !isIdentifierPart(p.chr) {
+		if p.chr >= utf8.RuneSelf && !isIdentifierPart(p.chr) {
+			// re2 only allows a backslash before ASCII punctuation
+		} else if p.chr == '$' || !isIdentifierPart(p.chr) {
 			// A non-identifier character needs escaping
 			err := p.goRegexp.WriteByte('\\')
 			if err != nil {
